@@ -534,6 +534,44 @@ func gen(g *GenCtx) {
 			g.Op("ua-dec %s", HexOrDash(v))
 		}
 	}
+	// ---- target info: any user name, hosts and ports of the modelled form (and a few outside it)
+	users := [][]byte{{}, []byte("alice"), []byte("alice@example.org"), []byte("a b"), []byte("a%b"), []byte("a%40b"), []byte("a:b"), []byte("a/b?c#d"),
+		[]byte("a!b'(c)*d"), []byte("$&+,;=-_.~"), {0xc3, 0xa9}, {0, 1, 255, 0x7f, 0x80}, []byte("@@@"), []byte("%"), []byte("%%41")}
+	hosts := [][]byte{[]byte("h"), []byte("target.example"), []byte("10.0.0.7"), []byte("-a-"), []byte("A.B"), []byte("::1"), []byte("a_b"), {}, []byte("h%41")}
+	ports := [][]byte{{}, []byte("22"), []byte("0"), []byte("65535"), []byte("99999"), []byte("123456"), []byte("2x")}
+	for _, u := range users {
+		for _, h := range hosts {
+			g.Op("ti-enc %s %s %s", HexOrDash(u), HexOrDash(h), HexOrDash(Pick(r, ports)))
+		}
+	}
+	for i := scale(g, 400, 100000); i > 0; i-- {
+		u := rbytes(r, lenFrom(r, []int{0, 1, 2, 30, 80, 84, 85, 86, 120, 255}, 12))
+		if r.Chance(1, 2) { // mostly printable, with the characters that matter
+			for k := range u {
+				u[k] = Pick(r, []byte("abcXYZ019-_.~$&+,;=!'()*@:/?#% \x00\xff"))
+			}
+		}
+		h := []byte(Pick(r, []string{"h", "target.example", "10.0.0.7", "x-1.y"}))
+		p := []byte(Pick(r, []string{"", "22", "7777", "65535"}))
+		g.Op("ti-enc %s %s %s", HexOrDash(u), HexOrDash(h), HexOrDash(p))
+		// the encoding, its damage, and hand-made texts through the reader
+		enc := encOf("ti-enc", HexOrDash(u)+" "+HexOrDash(h)+" "+HexOrDash(p))
+		if len(enc) > 0 {
+			g.Op("ti-dec %s", HexOrDash(enc))
+			g.Op("ti-dec %s", HexOrDash(append(append([]byte{}, enc...), r.Bytes(2)...)))
+			if len(enc) > 8 {
+				d := append([]byte{}, enc...)
+				d[7+r.Intn(len(d)-7)] = Pick(r, []byte("@%:aA0!/"))
+				g.Op("ti-dec %s", HexOrDash(d))
+				g.Op("ti-dec %s", HexOrDash(enc[:r.Intn(len(enc))]))
+			}
+		}
+	}
+	for _, t := range []string{"hop://h", "hop://@h", "hop://a!b@h", "hop://a%2fb@h", "hop://a%2Fb@h:022", "hop://a%zz@h", "hop://h:", "hop://h:99999",
+		"hop://a@b@h", "hop://-h-", "hop://h..x", "hop://a:b@h", "hop://a@h/p", "hop://a@h?q", "hop://a@h#f", "hopp://a@h", "hop:/a@h", "a@h", "h", "",
+		"hop://a%00b@h", "hop://%41%62@H", "hop://a@[::1]:22", "hop://a@h:1:2", "HOP://a@h"} {
+		g.Op("ti-dec %s", HexOrDash(append([]byte{byte(len(t))}, t...)))
+	}
 	// ---- exec status, through real tubes (slow)
 	g.Op("xst-enc conf")
 	g.Op("xst-dec 01")
